@@ -34,10 +34,13 @@ import (
 	"syscall"
 	"time"
 
+	"github.com/gorilla/websocket"
+
 	"github.com/safing/portbase/api"
 	"github.com/safing/portbase/config"
 	"github.com/safing/portbase/database"
 	_ "github.com/safing/portbase/database/dbmodule"
+	_ "github.com/safing/portbase/database/storage/hashmap"
 	"github.com/safing/portbase/database/query"
 	"github.com/safing/portbase/database/record"
 	"github.com/safing/portbase/dataroot"
@@ -411,6 +414,87 @@ func setup() error {
 		return fmt.Errorf("self check: port %d is served by another process (status %d)", port, resp.StatusCode)
 	}
 	return nil
+}
+
+// ------------------------------------------------------------------------------------------ websocket probe
+
+type wsRec struct {
+	record.Base
+	sync.Mutex
+	V string
+}
+
+var wsProbed bool
+
+// wsProbe talks to the database endpoint of the live server the way a user interface does (a websocket connection from
+// loopback, admin permission): a plain, a secret and a crown-jewel record are asked for by key and through a query.
+func wsProbe() (map[string]any, error) {
+	if !wsProbed {
+		if _, err := database.Register(&database.Database{Name: "x10ws", Description: "x10 websocket probe", StorageType: "hashmap"}); err != nil {
+			return nil, err
+		}
+		for _, name := range []string{"plain", "secret", "crown"} {
+			r := &wsRec{V: name}
+			r.SetKey("x10ws:" + name)
+			r.UpdateMeta()
+			switch name {
+			case "secret":
+				r.Meta().MakeSecret()
+			case "crown":
+				r.Meta().MakeCrownJewel()
+			}
+			if err := dbi.Put(r); err != nil {
+				return nil, err
+			}
+		}
+		wsProbed = true
+	}
+	hd := http.Header{}
+	hd.Set(permHeader, "admin")
+	conn, resp, err := websocket.DefaultDialer.Dial(fmt.Sprintf("ws://127.0.0.1:%d/api/database/v1", port), hd)
+	if resp != nil && resp.Body != nil {
+		_ = resp.Body.Close()
+	}
+	if err != nil {
+		return nil, fmt.Errorf("websocket dial: %w", err)
+	}
+	defer conn.Close()
+	for _, m := range []string{"1|get|x10ws:plain", "2|get|x10ws:secret", "3|get|x10ws:crown", "4|query|query x10ws:"} {
+		if err := conn.WriteMessage(websocket.TextMessage, []byte(m)); err != nil {
+			return nil, err
+		}
+	}
+	res := map[string]any{"plain": "", "secret": "", "crown": ""}
+	q := []string{}
+	names := map[string]string{"1": "plain", "2": "secret", "3": "crown"}
+	_ = conn.SetReadDeadline(time.Now().Add(10 * time.Second))
+	for done := false; !done || res["plain"] == "" || res["secret"] == "" || res["crown"] == ""; {
+		_, msg, err := conn.ReadMessage()
+		if err != nil {
+			return nil, fmt.Errorf("websocket read: %w", err)
+		}
+		parts := strings.SplitN(string(msg), "|", 4)
+		if len(parts) < 2 {
+			continue
+		}
+		if n, ok := names[parts[0]]; ok {
+			res[n] = parts[1]
+			continue
+		}
+		if parts[0] == "4" {
+			switch parts[1] {
+			case "ok":
+				if len(parts) >= 3 {
+					q = append(q, strings.TrimPrefix(parts[2], "x10ws:"))
+				}
+			case "done", "error":
+				done = true
+			}
+		}
+	}
+	sort.Strings(q)
+	res["q"] = q
+	return res, nil
 }
 
 // ------------------------------------------------------------------------------------------ classification
@@ -877,6 +961,13 @@ func run(tr *vio.Trace, n int, s *script) error {
 	}
 	h.cookies = [3]string{}
 	tr.EmitRaw(map[string]any{"h": n, "e": "new"})
+	if !wsProbed {
+		ob, err := wsProbe()
+		if err != nil {
+			return err
+		}
+		tr.EmitRaw(map[string]any{"h": n, "e": "wsprobe", "ob": ob})
+	}
 	for i := range s.Steps {
 		o := &s.Steps[i]
 		tr.EmitRaw(map[string]any{"h": n, "e": "try", "op": o})
